@@ -30,6 +30,9 @@ using Containers = TypeList<
     std::tuple<int, std::string, EnumU8>, Optional<int>, Optional<std::string>,
     Optional<NonTrivial>, Result<ErrorEnum, int>, Result<ErrorEnum, std::string>,
     Result<ErrorU8, int>, Result<ErrorU64, std::vector<int>>,
+    Optional<Optional<int>>, std::vector<Optional<std::string>>, std::map<std::string, Optional<int>>,
+    Result<ErrorEnum, Optional<int>>, Variant<Optional<int>, std::vector<std::string>>, std::vector<Variant<int, std::string>>,
+    std::array<std::uint16_t, 0>, std::tuple<std::vector<std::uint8_t>, std::array<Inner, 0>>,
     Variant<int, std::string, std::vector<int>>, Variant<int>,
     Variant<std::string, Inner>, Inner, Outer, Empty,
     Pairish<int, std::string>, LBufC<std::uint8_t, 8, std::uint8_t>,
@@ -38,7 +41,7 @@ using Containers = TypeList<
     LBufA<std::string, 4, std::size_t>, LBufC<std::uint32_t, 100, std::uint8_t>,
     Wrap<int>, Wrap<std::string>, WrapBuf<int, 4>, WrapBuf<std::string, 2>,
     NonTrivial>;
-using Tables = TypeList<TableV1, TableV2, TableV3, TableNamed, TableZero, TableOpt,
+using Tables = TypeList<TableV1, TableV2, TableV3, TableNamed, TableZero, TableOpt, TableWide,
                         HoldsTable, std::vector<TableV2>, Optional<TableV1>>;
 
 template <typename W, typename... Ts>
